@@ -95,6 +95,15 @@ func c11Faults() []c11Fault {
 		{"invalid repeat count", func() Expr { return Bin("~", S("aaa"), S("a{3,2}")) }, false},
 		{"repeat count beyond the limit", func() Expr { return Bin("!~", S("x"), S("x{1001}")) }, false},
 		{"repetition without an operand", func() Expr { return Bin("~", S("{2}"), S("{2}{3}")) }, false},
+		// doubles no numeral denotes (NaN, infinities, reached through num() or overflow): JSON has no spelling for them, no array has such an index
+		{"json of NaN", func() Expr { return CallE(V("json"), CallE(V("num"), S("NaN"))) }, false},
+		{"json of an array holding an infinity", func() Expr { return CallE(V("json"), Arr_(N("1"), CallE(V("num"), S("-Inf")))) }, false},
+		{"json of an overflowed product", func() Expr { return CallE(V("json"), &ObjLit{Keys: []string{"k"}, Vals: []Expr{Bin("*", CallE(V("num"), S("1e308")), N("10"))}}) }, false},
+		{"array read at NaN", func() Expr { return Idx(V("arrv"), CallE(V("num"), S("NaN"))) }, false},
+		{"array store at NaN", func() Expr { return Asg("=", Idx(V("arrv"), Bin("-", CallE(V("num"), S("Inf")), CallE(V("num"), S("Inf")))), N("1")) }, false},
+		{"array ++ at an infinity", func() Expr { return &Postfix{"++", Idx(V("arrv"), CallE(V("num"), S("Inf")))} }, false},
+		{"array read at minus infinity", func() Expr { return Idx(V("arrv"), CallE(V("num"), S("-Inf"))) }, false},
+		{"modulo by NaN", func() Expr { return Bin("%", N("7"), CallE(V("num"), S("NaN"))) }, true},
 		{"benign number", func() Expr { return N("7") }, true},
 		{"benign string", func() Expr { return S("s") }, true},
 		{"benign array", func() Expr { return V("arrv") }, true},
